@@ -330,6 +330,52 @@ def real_binary_timeout(scratch):
     return ok, {"cases": [case]}
 
 
+def real_binary_watch(scratch):
+    """C20 at the boundary the WATCH engine does not enter (the `watch` command line, real inotify): the
+    real binary runs `taskctl watch wa wb` (two watchers, one directory each); a file is written in
+    each directory and each watcher's task must run for its own file. Returns (ok, details)."""
+    import signal as _sig
+    repo = os.environ.get("VERIF_REPO", "/repo")
+    binp = os.path.join(BUILD, "taskctl-real")
+    env = dict(os.environ, GOFLAGS="-mod=mod", GOPROXY="off", GOSUMDB="off")
+    p = subprocess.run(["go", "build", "-o", binp, "./cmd/taskctl"], cwd=repo, env=env, stdout=subprocess.PIPE, stderr=subprocess.STDOUT, text=True)
+    if p.returncode != 0:
+        return None, {"error": "build of the real binary failed", "output": p.stdout[-800:]}
+    d = os.path.join(scratch, "watch")
+    subprocess.run(["rm", "-rf", d])
+    for sub in ("da", "db"):
+        os.makedirs(os.path.join(d, sub))
+        open(os.path.join(d, sub, "seed.txt"), "w").write("x")
+    cfg = os.path.join(d, "tasks.yaml")
+    open(cfg, "w").write(
+        "tasks:\n  ta:\n    command: echo \"ta $EventName $EventPath\" >> %s/log-a\n  tb:\n    command: echo \"tb $EventName $EventPath\" >> %s/log-b\n"
+        "watchers:\n  wa:\n    watch: [\"%s/da/*.txt\"]\n    events: [write]\n    task: ta\n  wb:\n    watch: [\"%s/db/*.txt\"]\n    events: [write]\n    task: tb\n" % (d, d, d, d))
+    q = subprocess.Popen([binp, "-c", cfg, "watch", "wa", "wb"], cwd=d, stdout=subprocess.DEVNULL, stderr=subprocess.DEVNULL, stdin=subprocess.DEVNULL, start_new_session=True)
+    time.sleep(2.5)   # registration + the start-up runs
+    def log(n):
+        try:
+            return open(os.path.join(d, "log-" + n)).read()
+        except OSError:
+            return ""
+    if q.poll() is not None:
+        return None, {"error": "taskctl watch exited by itself", "exit": q.returncode}
+    for sub in ("da", "db"):
+        with open(os.path.join(d, sub, "seed.txt"), "a") as f:
+            f.write("more\n")
+    t0 = time.time()
+    want_a, want_b = "write " + os.path.join(d, "da", "seed.txt"), "write " + os.path.join(d, "db", "seed.txt")
+    while time.time() - t0 < 12 and not (want_a in log("a") and want_b in log("b")):
+        time.sleep(0.2)
+    case = {"watchers": ["wa", "wb"], "wa_served_its_write": want_a in log("a"), "wb_served_its_write": want_b in log("b"), "waited_s": round(time.time() - t0, 1)}
+    try:
+        q.send_signal(_sig.SIGINT)
+        q.wait(timeout=10)
+    except Exception:
+        q.kill()
+    ok = case["wa_served_its_write"] and case["wb_served_its_write"]
+    return ok, {"cases": [case]}
+
+
 def load_known():
     p = os.path.join(VERIF, "known_findings.json")
     if not os.path.exists(p):
@@ -768,6 +814,25 @@ def main():
                     reported.append({"rule": v["rule"], "replay": path, "msg": v["msg"], "count": 1})
                     exit_code = 1
 
+        watch_probe = None
+        if spec.get("real_binary_watch"):
+            wok, watch_probe = real_binary_watch(scratch)
+            if wok is None:
+                harness_errors.append({"type": "watch-probe-trouble", "detail": watch_probe})
+            elif not wok:
+                v = {"prop": prop, "rule": "real-binary-watch", "msg": "real binary: `taskctl watch wa wb`, one write in each watched directory: %s (each watcher must run its task for its own file)" % json.dumps(watch_probe["cases"]), "seq": 0}
+                k = known_match(prop, v, known)
+                if k:
+                    known_hits[k["id"]] = (k, known_hits.get(k["id"], (k, 0))[1] + 1)
+                else:
+                    path = os.path.join(OUT, "replays", prop, "real-binary-watch.json")
+                    write_replay(path, {"property": prop, "engine": "real-binary", "violation": v, "cases": watch_probe["cases"],
+                                        "how": "build ./cmd/taskctl; two watchers wa (da/*.txt) and wb (db/*.txt), events [write], tasks appending $EventName $EventPath to a log; `taskctl watch wa wb`, append to one file in each directory, wait up to 12 s"})
+                    print("violation: rule=%s %s" % (v["rule"], v["msg"][:600]), flush=True)
+                    print("VIOLATION property=%s replay=%s" % (prop, path), flush=True)
+                    reported.append({"rule": v["rule"], "replay": path, "msg": v["msg"], "count": 1})
+                    exit_code = 1
+
         for kid, (k, n) in sorted(known_hits.items()):
             print("KNOWN-FINDING: property=%s %s (%d runs)" % (prop, k["text"], n), flush=True)
 
@@ -822,6 +887,7 @@ def main():
                 "real_binary_smoke": smoke,
                 "real_binary_signal_probe": signal_probe,
                 "real_binary_timeout_probe": timeout_probe,
+                "real_binary_watch_probe": watch_probe,
                 "workers": NWORKERS,
                 "harness_errors": len(harness_errors),
                 "worker_crashes": len(all_crashes),
